@@ -22,8 +22,9 @@ def S(n, end, inl, onStop="ignore", cl="id"):
 
 
 def script_sets(nsrc, tier, small=False, filt=False):
-    """Script families (a sum of concerns, not their product): timing of each next() / reaction to stop / cleanup mode."""
-    L = 2 if tier == "quick" else 3
+    """Script families (a sum of concerns, not their product): timing of each next() / reaction to stop / cleanup mode.
+    Sizes shrink with the number of harness sources of the shape group (the configurations multiply) and in the quick tier."""
+    quick = tier == "quick"
     src, seen = [], set()
 
     def add(s):
@@ -31,44 +32,44 @@ def script_sets(nsrc, tier, small=False, filt=False):
         if k not in seen:
             seen.add(k)
             src.append(s)
-    if small or nsrc >= 2 or (filt and tier == "quick"):
-        lens = (0, 2) if (small or nsrc >= 2) else (0, 1, 2)
-        for n in lens:
-            for end in "de":
-                add(S(n, end, [1] * (n + 1)))
-                add(S(n, end, [0] * (n + 1), "done"))
-                if end == "d":
-                    add(S(n, end, [0] * (n + 1), "ignore", "dd"))
-        add(S(2, "d", [0, 1, 0], "ignore"))
-        add(S(1, "d", [1, 0], "done", "dd"))
-        if nsrc < 3 and not small:
-            add(S(1, "e", [0, 1], "ignore", "dd"))
-            add(S(1, "d", [1, 1], "ignore", "ie"))
-            add(S(1, "e", [0, 0], "ignore", "de"))
+    core = [S(0, "d", [1]), S(2, "d", [1, 1, 1]), S(2, "d", [0, 0, 0], "done"), S(2, "e", [0, 0, 0], "ignore", "dd"), S(0, "e", [0], "done"),
+            S(2, "d", [0, 1, 0], "ignore"), S(1, "d", [1, 0], "done", "dd"), S(2, "e", [1, 1, 1]), S(0, "d", [0], "ignore", "dd"),
+            S(1, "d", [1, 1], "ignore", "ie"), S(2, "d", [0, 0, 0], "ignore", "dd"), S(1, "e", [0, 0], "ignore", "de"),
+            S(0, "e", [1]), S(0, "d", [0], "done"), S(1, "e", [0, 1], "ignore", "dd"), S(2, "e", [0, 0, 0], "done")]
+    if small:
+        for c in core[:8]:
+            add(c)
+    elif nsrc >= 3:
+        for c in core[:(6 if quick else 12)]:
+            add(c)
+    elif nsrc == 2:
+        for c in core[:(10 if quick else 16)]:
+            add(c)
+    elif filt and quick:
+        for c in core[:14]:
+            add(c)
     else:
+        L = 2 if quick else 3
         for n in range(0, L + 1):
             for end in "de":
                 for inl in itertools.product((1, 0), repeat=n + 1):
+                    if quick and end == "e" and 0 < sum(inl) < n + 1:
+                        continue
                     add(S(n, end, inl))                                   # timing family
                 add(S(n, end, [0] * (n + 1), "done"))                   # stop family
-                add(S(n, end, [0] * (n + 1), "done", "dd"))
-                add(S(n, end, [1] * (n + 1), "ignore", "dd"))           # cleanup family
+                if not quick or end == "d":
+                    add(S(n, end, [0] * (n + 1), "done", "dd"))
+                    add(S(n, end, [1] * (n + 1), "ignore", "dd"))       # cleanup family
                 add(S(n, end, [0] * (n + 1), "ignore", "dd"))
-        add(S(2, "d", [1, 0, 1], "done"))
-        add(S(2, "d", [0, 1, 0], "done", "dd"))
-        add(S(1, "d", [1, 1], "ignore", "ie"))
-        add(S(1, "e", [1, 1], "ignore", "ie"))
-        add(S(1, "d", [0, 0], "done", "de"))
-        add(S(1, "e", [0, 0], "ignore", "de"))
-    trig = [S(1, "d", [1]), S(1, "d", [0], "ignore"), S(1, "d", [0], "done"), S(0, "d", [1]), S(0, "e", [0], "ignore", "dd"),
-            S(1, "d", [0], "done", "dd")]
-    if nsrc < 3 and not small and tier != "quick":
-        trig += [S(0, "e", [1]), S(1, "d", [1], "ignore", "ie"), S(0, "d", [0], "done")]
-    elif nsrc < 3 and not small:
-        trig += [S(1, "d", [1], "ignore", "ie")]
-    if small:
-        trig = trig[:4]
-    pred = [[1, 1, 1], [0, 1, 1], [1, 0, 1], [0, 0, 0]] if (tier == "quick" or small) else \
+        for c in core:
+            add(c)
+    trig = [S(1, "d", [1]), S(1, "d", [0], "ignore"), S(1, "d", [0], "done"), S(0, "d", [1]), S(1, "d", [0], "done", "dd"),
+            S(0, "e", [0], "ignore", "dd"), S(1, "d", [1], "ignore", "ie"), S(0, "e", [1]), S(0, "d", [0], "done")]
+    if small or nsrc >= 3:
+        trig = trig[:4] if (small or quick) else trig[:6]
+    elif quick:
+        trig = trig[:5] + trig[6:7]
+    pred = [[1, 1, 1], [0, 1, 1], [1, 0, 1], [0, 0, 0]] if (quick or small) else \
         [[1, 1, 1], [0, 1, 1], [1, 0, 1], [0, 0, 1], [1, 1, 0], [0, 0, 0]]
     return dict(src=src, trig=trig, pred=pred)
 
